@@ -235,6 +235,10 @@ def finish(rep, level, explanation, checker_cmd):
         rp = os.path.join(replay_dir, "%s_%d.json" % (rep.pid, i))
         with open(rp, "w") as f:
             json.dump(v, f, indent=1)
+        if i == 40:
+            print("... %d further violations not printed (all are in evidence/%s.json and %s)" % (len(unlisted) - 40, rep.pid, replay_dir))
+        if i >= 40:
+            continue
         print("VIOLATION property=%s replay=%s" % (rep.pid, rp))
         print("  rule=%s construct=%s at %s\n  %s" % (v["rule"], v["key"], v["where"],
                                                       json.dumps(v["detail"])[:1500]))
